@@ -1,7 +1,7 @@
 SPECIFICATION Spec
 CONSTANTS
   Agents = {"a1", "a2"}
-  Ids = {1, 2, 3}
+  Ids = {0, 1, 2}
   SendLogs = FALSE
   MaxOps = 2
 INVARIANTS Emit
